@@ -26,6 +26,7 @@ From Coq Require Import Reals List ZArith Bool Lra Lia Sorted.
 From Coquelicot Require Import Coquelicot.
 From FJ Require Import Model.Num Model.Leaves Proofs.RNum Proofs.LeafDerivP Proofs.RqsDerivP
                        Proofs.DetP Proofs.DetPJac Proofs.DetPC02.
+From FJ Require Proofs.InvFunP.
 Import ListNotations.
 Open Scope R_scope.
 
@@ -226,6 +227,30 @@ Theorem C02_invert_ldj_rank0_partial : forall (f g : R -> R) (y lf e eps : R),
   is_derive g y e -> is_ldj g y (- lf).
 Proof. exact c02_invert_ldj_rank0_partial. Qed.
 Print Assumptions C02_invert_ldj_rank0_partial.
+
+(* The full statement: no differentiability hypothesis on g.  The local inverse function theorem
+   (Proofs/InvFunP.v) gives g'(y) = 1 / f'(g y) from differentiability of f at the single point g y,
+   f (g t) = t near y and CONTINUITY of g at y. *)
+Theorem C02_invert_ldj_rank0 : forall (f g : R -> R) (y lf eps : R),
+  is_ldj f (g y) lf -> 0 < eps -> (forall t, y - eps < t < y + eps -> f (g t) = t) ->
+  continuous g y -> is_ldj g y (- lf).
+Proof. exact InvFunP.inverse_is_ldj. Qed.
+Print Assumptions C02_invert_ldj_rank0.
+
+Theorem C02_invert_derivative_rank0 : forall (f g : R -> R) (y d eps : R),
+  is_derive f (g y) d -> d <> 0 -> 0 < eps -> (forall t, y - eps < t < y + eps -> f (g t) = t) ->
+  continuous g y -> is_derive g y (/ d).
+Proof. exact InvFunP.inverse_derive_value. Qed.
+Print Assumptions C02_invert_derivative_rank0.
+
+(* ... and continuity cannot be dropped: a right inverse that jumps between two branches of f at y
+   satisfies every other hypothesis and has no derivative there. *)
+Theorem C02_invert_ldj_needs_continuity_refuted :
+  is_ldj InvFunP.cx_f (InvFunP.cx_g 0) 0 /\
+  (forall t, 0 - 1 < t < 0 + 1 -> InvFunP.cx_f (InvFunP.cx_g t) = t) /\
+  ~ (exists l, is_ldj InvFunP.cx_g 0 l).
+Proof. exact InvFunP.invert_ldj_needs_continuity. Qed.
+Print Assumptions C02_invert_ldj_needs_continuity_refuted.
 
 (* Invert(leaf) for the scalar leaves, unconditionally: inverse() is differentiable at every point of
    the codomain (for LeakyTanh also at +-tanh(max_val): gluing) and the log-det reported with it is
